@@ -51,7 +51,16 @@ def case_strategy(draw: Any) -> Dict[str, Any]:
             "delay": st.sampled_from([0.0, 0.3, 2.0, 10.0]),
             "new_conn": st.booleans()}), min_size=0, max_size=4)),
         "trigger_after": draw(st.sampled_from([0.2, 1.5, 4.0])),
+        # the "message" of *.failed is optional in the lifespan specification
+        "failed_message": draw(st.booleans()),
     }
+
+
+def _failed(typ: str, case: Dict[str, Any]) -> dict:
+    msg = {"type": typ}
+    if case.get("failed_message", True):
+        msg["message"] = "scripted"
+    return msg
 
 
 def lifespan_program(case: Dict[str, Any]) -> list:
@@ -60,7 +69,7 @@ def lifespan_program(case: Dict[str, Any]) -> list:
     if s == "complete":
         prog.append(["send", {"type": "lifespan.startup.complete"}])
     elif s == "failed":
-        prog.append(["send", {"type": "lifespan.startup.failed", "message": "scripted"}])
+        prog.append(["send", _failed("lifespan.startup.failed", case)])
         return prog
     elif s == "raise":
         prog.append(["raise", "ValueError"])
@@ -79,7 +88,7 @@ def lifespan_program(case: Dict[str, Any]) -> list:
     if e == "complete":
         prog.append(["send", {"type": "lifespan.shutdown.complete"}])
     elif e == "failed":
-        prog.append(["send", {"type": "lifespan.shutdown.failed", "message": "scripted"}])
+        prog.append(["send", _failed("lifespan.shutdown.failed", case)])
     elif e == "raise":
         prog.append(["raise", "ValueError"])
     elif e == "hang":
